@@ -125,6 +125,7 @@ SPECS["C12"] = dict(
     rule="TODO",
     jobs=[
         rapid("TestC12Core", 800, 25000, sq=4, st=16),
+        plain("TestC12FEC", sq=1, st=2),
     ],
 )
 
@@ -154,6 +155,53 @@ SPECS["C13"] = dict(
         rapid("TestC13Accept", 500, 10000, sq=2, st=8, steps=40),
         plain("TestC13KnownDeadlineOneWaiter", sq=1, st=1),
         plain("TestC13KnownAcceptDeadline", sq=1, st=1),
+    ],
+)
+
+SPECS["C08"] = dict(
+    title="ciphers round-trip every length and equal textbook CFB",
+    level="exploration",
+    technique="exhaustive grid (cipher x length 0..1500 x aliasing x direction x content) with differential oracle against crypto/cipher CFB / salsa20 / pbkdf2-xor / GCM, plus concurrent callers",
+    level_text="TODO",
+    level_note="TODO",
+    design_ref="5/C08",
+    rule="TODO",
+    exhaustive_all=True,
+    jobs=[
+        plain("TestC08Grid", sq=4, st=16, env={"C08_CONTENTS": {Q: 3, T: 8}}),
+        plain("TestC08AEAD", sq=1, st=1),
+        plain("TestC08Concurrent", sq=1, st=4, env={"C08_ROUNDS": {Q: 60, T: 2000}}),
+    ],
+)
+
+SPECS["C07"] = dict(
+    title="FEC reconstructs exactly the missing packets from any k of n",
+    level="exploration",
+    technique="exhaustive arrival orders of every subset for small groups + rapid-sampled ratios up to 255 with duplicates, interleaved neighbours and wrap positions; reference = encoder inputs",
+    level_text="TODO",
+    level_note="TODO",
+    design_ref="5/C07",
+    rule="TODO",
+    jobs=[
+        plain("TestC07Exhaustive", sq=4, st=16, env={"C07_MAXN": {Q: 5, T: 6}}),
+        rapid("TestC07Sampled", 1500, 40000, sq=2, st=16),
+        plain("TestC07KnownFresh", sq=1, st=1),
+    ],
+)
+
+SPECS["C16"] = dict(
+    title="FEC ratio mismatch is harmless and the decoder converges to the peer's",
+    level="exploration",
+    technique="rapid-generated (sender ratio, receiver ratio, start id, pre-convergence loss/dup/reorder) against the real decoder; oracles: emitted packets are originals, convergence bound, recovery after convergence, stability with equal ratios",
+    level_text="TODO",
+    level_note="TODO",
+    design_ref="5/C16",
+    rule="TODO",
+    jobs=[
+        rapid("TestC16Convergence", 1500, 40000, sq=3, st=16),
+        rapid("TestC16Stability", 1500, 40000, sq=2, st=16),
+        plain("TestC16KnownNonOriginal", sq=1, st=1),
+        plain("TestC16KnownWrapDelay", sq=1, st=1),
     ],
 )
 
